@@ -178,6 +178,9 @@ func realtime(a *hk.Args) error {
 		if a.Tier == "thorough" && id%4 == 0 {
 			hold = 100 + rng.Intn(200)
 		}
+		if id == 1 {
+			hold = 80 + rng.Intn(40) // every run has a long hold: drift of the heartbeat shows only after many beats
+		}
 		load := []int{0, 2, 4}[rng.Intn(3)]
 		if a.Tier == "thorough" {
 			load = []int{0, 2, 4, 8, 16}[rng.Intn(5)]
